@@ -894,17 +894,18 @@ def fit_louvain(ctx, a, which, fb=False):
     gkey = ('LE', a.shape, a.indptr.tobytes(), a.indices.tobytes(), a.data.tobytes(), which, fb)
     if cap is None:
         return Fit([], lambda ok: [])          # Louvain itself refused the input: nothing of C09 ran
-    sq = nr == ncol
+    sq = not (fb or nr != ncol)        # `louvain.bipartite` is false: Louvain worked on the matrix as an adjacency
     ln = cap['labels'] if sq and cap['labels'] is not None else []
     lr = cap['row'] if not sq and cap['row'] is not None else []
     lc = cap['col'] if not sq and cap['col'] is not None else []
-    run = 'c09.louvain %d %d %s %s %s %s %s' % (nr, ncol, enc_mat(dense), enc_list(ln), enc_list(lr), enc_list(lc), which)
+    run = 'c09.louvain %d %d %s %s %s %s %s %s' % (nr, ncol, enc_mat(dense), enc_bool(fb), enc_list(ln), enc_list(lr),
+                                                  enc_list(lc), which)
     if status != 'ok':
         return Fit([], lambda ok: [Case(gkey + ('run',), dict(sig0, check='run'), run, status, None, False, desc)])
 
     def builder(ok):
         impl = 'ok lab=%s emb=%s embcol=%s' % (enc_list(est.labels_), out_mat(est.embedding_),
-                                               out_mat(None if sq else est.embedding_col_))
+                                               out_mat(getattr(est, 'embedding_col_', None)))
         spec = 'c09.spec_louvain %d %d %s %s %s %s' % (nr, ncol, enc_mat(dense), enc_list(est.labels_), enc_mat(est.embedding_),
                                                       enc_f(TOL_SPEC))
         return [Case(gkey + ('run',), dict(sig0, check='closed-form'), run, impl, spec, a.nnz > 1, desc)]
@@ -1132,7 +1133,7 @@ def build_fits(ctx):
         if not es:
             continue
         a = sym_weighted(rng, n, es)
-        add(fit_louvain(ctx, a, rng.choice(['remove', 'merge', 'keep']), rng.random() < 0.1), 'louvain-sq')
+        add(fit_louvain(ctx, a, rng.choice(['remove', 'merge', 'keep']), rng.random() < 0.25), 'louvain-sq')
     for _ in range(20 if quick else 200):
         b = random_rect(rng, rng.randint(2, 7), rng.randint(2, 7), rng.choice([0.3, 0.5]))
         if b.shape[0] != b.shape[1]:
